@@ -15,6 +15,7 @@ import (
 	enumspb "go.temporal.io/api/enums/v1"
 	failurepb "go.temporal.io/api/failure/v1"
 	historypb "go.temporal.io/api/history/v1"
+	"go.temporal.io/server/api/adminservice/v1"
 	"go.temporal.io/server/common/codec"
 	"go.temporal.io/server/common/persistence/serialization"
 	"google.golang.org/protobuf/proto"
@@ -866,4 +867,55 @@ func sparseWarm(g *typeGraph, roots []int, fl *filler, trs ...interceptor.Transl
 		}
 	}
 	return n
+}
+
+// bigBatches builds a raw-history response whose k history batches are each larger than `size` bytes (a padding event
+// with a long identity) and hold the event mk(i); large batches are where buffer pooling / re-use optimisations live.
+func bigBatches(k, size int, mk func(i int) *historypb.HistoryEvent) *adminservice.GetWorkflowExecutionRawHistoryV2Response {
+	resp := &adminservice.GetWorkflowExecutionRawHistoryV2Response{}
+	for i := 0; i < k; i++ {
+		pad := plainPadEvent(int64(10*i + 1))
+		pad.GetWorkflowTaskCompletedEventAttributes().Identity = strings.Repeat(fmt.Sprintf("worker-%d-", i), size/9+1)
+		ev := mk(i)
+		ev.EventId = int64(10*i + 2)
+		blob, err := evSerializer.SerializeEvents([]*historypb.HistoryEvent{pad, ev})
+		if err != nil {
+			panic(err)
+		}
+		resp.HistoryBatches = append(resp.HistoryBatches, blob)
+	}
+	return resp
+}
+
+// translateSeveralBig: several large batches in one message, and several such messages translated one after the other
+// while the earlier results are still referenced (in flight). Every blob that left the translator must STILL decode to the
+// reference translation after all of them have been translated. Returns a description of the first discrepancy, or "".
+func translateSeveralBig(tr interceptor.Translator, request bool, ro refOpts, mk func(msg, i int) *historypb.HistoryEvent) string {
+	var msgs, refs []proto.Message
+	for mi, k := range []int{3, 2, 1, 2} {
+		m := bigBatches(k, 5000+1500*mi, func(i int) *historypb.HistoryEvent { return mk(mi, i) })
+		ref := proto.Clone(m)
+		refTranslate(ref.ProtoReflect(), ro)
+		var err error
+		if request {
+			_, err = tr.TranslateRequest(m)
+		} else {
+			_, err = tr.TranslateResponse(m)
+		}
+		if err != nil {
+			return fmt.Sprintf("message %d: %v", mi+1, err)
+		}
+		msgs, refs = append(msgs, m), append(refs, ref)
+	}
+	for mi := range msgs {
+		a, b := proto.Clone(msgs[mi]), refs[mi]
+		okA, okB := canonBlobs(a.ProtoReflect()), canonBlobs(b.ProtoReflect())
+		if !okA || !okB {
+			return fmt.Sprintf("message %d of %d (each with large history batches, translated one after the other): a batch that left the translator no longer decodes (result decodes=%v)", mi+1, len(msgs), okA)
+		}
+		if !proto.Equal(a, b) {
+			return fmt.Sprintf("message %d of %d (each with large history batches, translated one after the other): what left the translator differs from the reference translation once the later messages have been translated", mi+1, len(msgs))
+		}
+	}
+	return ""
 }
